@@ -208,14 +208,97 @@ def escape_stream(ctx, n):
             ctx.violation("QueryUnescape(QueryEscape(b)) != b for b=%s: %s" % (j["hex"], a), {"domain": "url", "line": j, "impl": a})
 
 
+SEGS = ["a", "b", "c", "img", "x.png", "d;p", "v1", "~u", "q-1", "e_f", "index.html", "k.tar.gz", "A", "0"]
+# queries that the query canonicalisation (a separate, deliberate step: C09's query theorems) leaves as they are
+RQ = ["", "", "?y=2", "?a=1", "?a=1&b=2", "?b=2&a=1&b=3", "?k=v1.2", "?p=x.y~z"]
+
+
+def gen_reference(r):
+    """(page, reference) over the grammar the resolver model covers: every reference form of the URL standard, plain segments,
+    dot segments anywhere (leading, middle, trailing, excess), empty segments, queries of plain pairs, optional fragment"""
+    def path(n, lead_dots=True):
+        segs = []
+        for _ in range(n):
+            k = r.random()
+            segs.append(".." if (k < 0.18 and lead_dots) else "." if k < 0.28 else "" if k < 0.32 else r.choice(SEGS))
+        return segs
+    scheme = r.choice(["http", "https"])
+    host = r.choice(["p.example", "www.parent.example", "h.example:8080", "sub.d.example"])
+    bpath = "/" + "/".join(path(r.randrange(0, 5), lead_dots=False)) if r.random() < 0.9 else ""
+    base = "%s://%s%s%s" % (scheme, host, bpath, r.choice(RQ))
+    k = r.random()
+    def nonempty_first(segs):
+        if segs and segs[0] == "":
+            segs[0] = r.choice(SEGS)      # a leading empty segment would turn the reference into another form (/x or //host)
+        return segs
+    if k < 0.45:
+        ref = "/".join(nonempty_first(path(r.randrange(1, 6)))) + r.choice(["", "", "/"])  # path-relative
+    elif k < 0.65:
+        ref = "/" + "/".join(nonempty_first(path(r.randrange(0, 5))))                       # path-absolute
+    elif k < 0.75:
+        ref = "//" + r.choice(["cdn.example", "img.d.example:8443"]) + r.choice(["", "/", "/" + "/".join(path(r.randrange(1, 4)))])   # scheme-relative
+    elif k < 0.85:
+        ref = r.choice(["http", "https"]) + "://" + r.choice(["o.example", "other.d.example"]) + r.choice(["", "/", "/" + "/".join(path(r.randrange(1, 4)))])
+    elif k < 0.93:
+        ref = ""                                                                            # query-only / empty / fragment-only
+    else:
+        ref = r.choice([".", "..", "./", "../", "../..", "./."])
+    q = r.choice(RQ)
+    if ref == "" or r.random() < 0.4:
+        ref += q
+    if r.random() < 0.2:
+        ref += r.choice(["#", "#frag", "#a/b?c"])
+    return base, ref
+
+
+def resolve_stream(ctx, n):
+    """the real normaliser against the resolver of the URL standard (Model/Resolve.lean) on generated (page, reference) pairs"""
+    r = ctx.rng
+    cases = [("http://a.example/b/c/d;p?q=1", x) for x in ["g", "./g", "g/", "/g", "//g.example", "?y=2", "g?y=2", ".", "./", "..", "../", "../g", "../..",
+                                                           "../../", "../../g", "../../../g", "../../../../g", "/./g", "/../g", "g.", ".g", "g..", "..g",
+                                                           "./../g", "./g/.", "g/./h", "g/../h", "g;x=1/./y", "g;x=1/../y", "g#s"]]
+    cases += [gen_reference(r) for _ in range(n)]
+    # the empty reference (the page itself) is rejected by the normaliser: nothing to fetch, outside this comparison
+    cases = [(b, x) for b, x in cases if x.split("#")[0] != ""]
+    lines = [json.dumps({"op": "norm", "raw": ref, "parent": base}) for base, ref in cases]
+    rc, impl, err = core.run_impl("url", lines, timeout=1200)
+    rc2, model, err2 = core.run_model("url", [json.dumps({"op": "resolve", "raw": ref, "parent": base}) for base, ref in cases], timeout=1200)
+    if len(impl) != len(cases) or len(model) != len(cases):
+        raise RuntimeError("resolve stream: %d / %d / %d lines %s %s" % (len(cases), len(impl), len(model), err[-300:], err2[-300:]))
+    for (base, ref), a, m in zip(cases, impl, model):
+        want = unhex(m.split("=", 1)[1])
+        ctx.count("resolve:" + ("absolute" if "://" in ref.split("?")[0] else "scheme-relative" if ref.startswith("//") else "path-absolute" if ref.startswith("/")
+                                else "query-or-empty" if ref[:1] in ("", "?", "#") else "path-relative"))
+        ctx.case("r" + base + "|" + ref, ".." in ref or "./" in ref or ref[:1] in ("", "?"))
+        rep = {"domain": "url", "raw": ref, "parent": base, "impl": a}
+        if not a.startswith("ok"):
+            ctx.violation("reference %r on page %s: the URL standard resolves it to %s, the normaliser answered %s" % (ref, base, want, a), rep)
+            continue
+        got = unhex(parse_line(a)["canon"])
+        if got != want:
+            # the standard is the judge here: an independent statement of it (urllib) decides whether it is the code or the model that is off
+            from urllib.parse import urljoin, urldefrag
+            ref_py = urldefrag(urljoin(base, ref))[0]
+            if ref_py.count("/") == 2:
+                ref_py += "/"
+            if got != ref_py and want == ref_py:
+                ctx.violation("reference %r on page %s resolves to %s as the URL standard prescribes; the normaliser gave %s" % (ref, base, want, got), rep)
+            else:
+                ctx.disagree({"op": "resolve", "raw": ref, "parent": base}, got, want, {"urllib": ref_py})
+
+
 def run(ctx):
     t = ctx.thorough()
     norm_stream(ctx, 60000 if t else 2500)
+    resolve_stream(ctx, 30000 if t else 1500)
     query_stream(ctx, 40000 if t else 1500)
     escape_stream(ctx, 20000 if t else 800)
     metamorphic(ctx, 4000 if t else 300)
-    ctx.assumptions += ["URL parsing and reference resolution (ada WHATWG parser, net/url, idna) are oracles: only their outputs are checked "
-                        "(shape, determinism, idempotence); the byte-level escaping and query re-encoding are modelled and proved"]
+    ctx.assumptions += ["URL parsing (ada WHATWG parser, net/url, idna) is an oracle: only its outputs are checked (shape, determinism, idempotence); "
+                        "the byte-level escaping and query re-encoding are modelled and proved",
+                        "reference resolution is done by ada: it is compared, on generated (page, reference) pairs over plain segments, dot segments, "
+                        "empty segments and plain queries, with the resolver of the URL standard in Model/Resolve.lean (whose structural "
+                        "properties are proved); percent-encoded dots, back-slashes, IDN hosts and default ports are outside that grammar"]
 
 
 def replay(ctx, doc):
